@@ -40,7 +40,7 @@ func histConfigs(tier string, seatsList []int, modes []string, blinds []pt.Table
 func init() {
 	register(&Check{
 		ID: "C01", Level: "model_checking",
-		Rule:        "multi-hand histories on a fresh real table per (seat count, mode, blind structure): every hand picks a line (fold-out default; check-down / everyone all-in with deck asc/desc/tie), at most one membership operation between hands (arrive, re-buy, leave busted / live player, add-on) and one at the first wager request (arrive, add-on or re-buy of a participant, departure of a non-participant / participant); all histories with at most `bound` non-default picks are executed; a harness ledger (chips brought in - taken away) is compared with the bankroll sum whenever no hand is in progress and each settlement is checked against bankroll at open + result + top-ups",
+		Rule:        "multi-hand histories on a fresh real table per (seat count, mode, blind structure): every hand picks a line (fold-out default; check-down / everyone all-in with deck asc/desc/tie), at most one membership operation between hands (arrive, sit out = reserve without sitting in, re-buy of a busted player, top-up through PlayerReserve of any seated player, leave busted / live player, add-on) and one at the first wager request (arrive, sit out, add-on / re-buy of a participant, top-up of anybody, departure of a non-participant / participant); all histories with at most `bound` non-default picks are executed; a harness ledger (chips brought in - taken away) is compared with the bankroll sum whenever no hand is in progress and each settlement is checked against bankroll at open + result + top-ups",
 		Assumptions: []string{"stacks 3/7/12, newcomers 5, add-ons 3; blinds 1/2 (+ante 1 / dealer-blind 2)", "membership operations are placed at quiescent points (status standby before the continue interval elapses, and the first wager request)"},
 		Suites: func(tier string) []*Suite {
 			bound, hands := 2, 3
@@ -52,8 +52,8 @@ func init() {
 			var ss []*Suite
 			for _, hc := range histConfigs(tier, seats, []string{pt.CompetitionMode_CT, pt.CompetitionMode_MTT, pt.CompetitionMode_Cash}, []pt.TableBlindState{blindStd(), blindAnte(), blindDealer()}, hands) {
 				hc := hc
-				hc.between = []string{"none", "arrive", "rebuy", "leave-busted", "leave-live", "addon"}
-				hc.mid = []string{"none", "arrive", "addon-part", "rebuy-part", "leave-sitout", "leave-part"}
+				hc.between = []string{"none", "arrive", "sitout", "rebuy", "topup", "leave-busted", "leave-live", "addon"}
+				hc.mid = []string{"none", "arrive", "sitout", "addon-part", "rebuy-part", "topup", "leave-sitout", "leave-part"}
 				ss = append(ss, &Suite{Name: "c01/" + hc.name, Bound: bound, Weight: hc.tcfg.Seats, Run: func(prefix []int) *vrt.Exec {
 					return runHist(prefix, hc, vrt.Config{}, func(h *hist) []Monitor {
 						mc := newMonHandChips("C01")
